@@ -1,6 +1,6 @@
 (* Properties/C12.v — part.Tree watch channels close exactly on notification of relevant changes.
    Model: Part/Model.v (channels = numbers, Txn.watches = list, Notify returns the closed set). *)
-From SV Require Import Base.Bytes Base.OrdMap Part.Model Part.Sem Part.Refine Part.Cow Part.Watch Part.Stable Part.WatchHist.
+From SV Require Import Base.Bytes Base.OrdMap Part.Model Part.Sem Part.Refine Part.Cow Part.Watch Part.Stable Part.WatchHist Part.PStable Part.PrefixHist Part.InsertWatch Part.Fresh.
 Open Scope N_scope.
 
 (* Notify closes exactly the recorded channels plus the root channel iff the txn is dirty;
@@ -31,25 +31,24 @@ Theorem C12_dirty_iff_changed : forall ops x, txn_ok x ->
 Proof. exact dirty_iff_changed. Qed.
 Print Assumptions C12_dirty_iff_changed.
 
-(* root watch of the previous tree: closed by Notify iff the txn changed something (up to the root
-   channel having been recorded as a node channel, which freshness excludes — see below) *)
-Theorem C12_root_watch_closed_iff_partial : forall t next ops,
-  tree_ok t -> tr_rw t <> 0 ->
-  let x := fold_left wstep ops (tree_txn t next) in
-  (In (tr_rw t) (snd (txn_notify x)) <-> any_change (abs_tree t) ops = true \/ In (tr_rw t) (s_ws (t_st x))).
-Proof. exact root_watch_closed_iff. Qed.
-Print Assumptions C12_root_watch_closed_iff_partial.
+(* root watch of the previous tree: closed by Notify iff the txn inserted, replaced or deleted something
+   (CKt: the channel-accounting invariant of Part/Fresh.v, established by part.New and kept by every commit) *)
+Theorem C12_root_watch_closed_iff : forall t next ops,
+  tree_ok t -> CKt t next -> tr_next t <> 0 -> tr_rw t <> 0 ->
+  (In (tr_rw t) (snd (txn_notify (fold_left wstep ops (tree_txn t next)))) <-> any_change (abs_tree t) ops = true).
+Proof. exact root_watch_closed_iff_exact. Qed.
+Print Assumptions C12_root_watch_closed_iff.
 
 (* Get(k) watch, first write of a txn begun from a committed tree (ids as guaranteed by C11_cow_published):
    Insert/Modify of k makes the channel that Get(k) returned on the committed tree (leaf channel, channel of the
    deepest matching inner node, or root channel; present or absent key; both watch modes) part of the
    set closed by Notify. The underlying path induction (modify_records) holds for every tree none of whose
    nodes is private to the txn. *)
-Theorem C12_get_watch_closed_first_write_partial : forall t next md key v,
+Theorem C12_get_watch_closed_first_write : forall t next md key v,
   tree_ids_ok t -> snd (tree_get t key) <> 0 ->
   In (snd (tree_get t key)) (snd (txn_notify (fst (fst (fst (txn_modify (tree_txn t next) md key v)))))).
 Proof. exact get_watch_closed_by_modify. Qed.
-Print Assumptions C12_get_watch_closed_first_write_partial.
+Print Assumptions C12_get_watch_closed_first_write.
 
 (* recorded channels are never forgotten during modify, and every node on the search path of the key that is
    not private to the txn has its channel recorded *)
@@ -63,27 +62,27 @@ Print Assumptions C12_modify_records_search_path.
 
 (* same for Delete of a present key: the leaf channel (and the channel of every node on the path that is not
    private to the txn) is recorded; Get(k)'s channel on the committed tree is closed by Notify *)
-Theorem C12_get_watch_closed_first_delete_partial : forall t next key,
+Theorem C12_get_watch_closed_first_delete : forall t next key,
   tree_ids_ok t -> snd (tree_get t key) <> 0 -> snd (txn_delete (tree_txn t next) key) <> None ->
   In (snd (tree_get t key)) (snd (txn_notify (fst (txn_delete (tree_txn t next) key)))).
 Proof. exact get_watch_closed_by_delete. Qed.
-Print Assumptions C12_get_watch_closed_first_delete_partial.
+Print Assumptions C12_get_watch_closed_first_delete.
 
 (* Prefix(q) watch, first write of a txn begun from a committed tree: inserting/modifying, or deleting a present,
    key that starts with q closes the channel Prefix(q) returned on the committed tree (q may end inside a
    compressed path, at an inner node, or match nothing) *)
-Theorem C12_prefix_watch_closed_first_write_partial : forall t next md key v q,
+Theorem C12_prefix_watch_closed_first_write : forall t next md key v q,
   tree_ids_ok t -> has_prefix key q = true -> snd (tree_prefix t q) <> 0 ->
   In (snd (tree_prefix t q)) (snd (txn_notify (fst (fst (fst (txn_modify (tree_txn t next) md key v)))))).
 Proof. exact prefix_watch_closed_by_modify. Qed.
-Print Assumptions C12_prefix_watch_closed_first_write_partial.
+Print Assumptions C12_prefix_watch_closed_first_write.
 
-Theorem C12_prefix_watch_closed_first_delete_partial : forall t next key q,
+Theorem C12_prefix_watch_closed_first_delete : forall t next key q,
   tree_ids_ok t -> has_prefix key q = true -> snd (tree_prefix t q) <> 0 ->
   snd (txn_delete (tree_txn t next) key) <> None ->
   In (snd (tree_prefix t q)) (snd (txn_notify (fst (txn_delete (tree_txn t next) key)))).
 Proof. exact prefix_watch_closed_by_delete. Qed.
-Print Assumptions C12_prefix_watch_closed_first_delete_partial.
+Print Assumptions C12_prefix_watch_closed_first_delete.
 
 (* the path inductions behind them, for any tree none of whose nodes is private to the txn: the channel of
    EVERY inner node visited on the way to the key is recorded by modify, and by delete when the key is found *)
@@ -155,17 +154,73 @@ Theorem C12_history_keeps_id_monotonicity : forall t next ops,
 Proof. exact history_keeps_tmono. Qed.
 Print Assumptions C12_history_keeps_id_monotonicity.
 
-(* Stated, not proved (checked by the exact M:C12 correspondence and the Go-side !BAD:C12 oracles):
-     Theorem C12_prefix_watch_closed_history : as C12_get_watch_closed_history with snd (tree_prefix t q) and a touched
-       key having prefix q. (Proved: the first-write versions above. Missing: the two-key stability induction for
-       prefix_node — the analogue of Part/Stable.v modify_stable/delete_stable, which are about search_node.)
-     Theorem C12_insert_watch_closed_same_txn : the channel returned by txn_modify for k is closed by the Notify of the
-       SAME txn if k is changed again later in it. (Proved: it is the Get(k) channel of the resulting tree
-       (C12_insert_watch_is_get_watch), so C12_get_watch_closed_history closes it in every LATER txn. Within the same txn the
-       channel is younger than the txn's allocator and the freshness argument of Part/Stable.v does not apply.)
-     Theorem C12_new_tree_fresh : no channel reachable from the committed tree is in the closed set (needs pairwise
-       distinctness of the channels of a tree and "channels of the tree < allocator" as invariants).
-     The hypothesis `snd (tree_get t k) < next` of C12_get_watch_closed_history is that second invariant for one handle. *)
+(* Prefix(q) watch over WHOLE HISTORIES (per-node mode; in root-only mode Prefix returns the root channel, which is
+   C12_root_watch_closed_iff): the channel Prefix(q) returned on the committed tree is closed by Notify if any key
+   starting with q is inserted, replaced, or deleted while present, at any position of any operation sequence *)
+Theorem C12_prefix_watch_closed_history : forall t next ops q,
+  tree_ids_ok t -> tr_next t <> 0 -> root_tmono (tr_root t) ->
+  snd (tree_prefix t q) <> 0 -> snd (tree_prefix t q) < next ->
+  touched_p q (tree_txn t next) ops ->
+  In (snd (tree_prefix t q)) (snd (txn_notify (fold_left wstep ops (tree_txn t next)))).
+Proof. exact prefix_watch_closed_history. Qed.
+Print Assumptions C12_prefix_watch_closed_history.
+
+(* InsertWatch / ModifyWatch (per-node mode): the channel w handed out for key in txn state x (any point of any txn
+   satisfying the invariants: TInv = ids bounded/monotone + txn-owned nodes carry txn-allocated channels, IL = inner
+   channels below the allocator) is closed
+   - by this txn's Notify if key is inserted, replaced or deleted again by a LATER OPERATION OF THE SAME TXN, and
+   - otherwise it is still the channel Get(key) returns on the tree the txn commits to, and the Notify of the next
+     txn that touches key (at any position) closes it. (A txn in between that does not touch key either closes it
+     or keeps it as Get(key)'s channel: C12_get_watch_closed_or_kept.) *)
+Theorem C12_insert_watch_closes_on_next_change : forall x md key v next0,
+  TInv next0 (Fr next0) x -> IL x -> t_rw x < s_next (t_st x) -> t_ro x = false ->
+  let x1 := fst (fst (fst (txn_modify x md key v))) in
+  let w := snd (txn_modify x md key v) in
+  w <> 0 ->
+  forall ops1,
+    let xe := fold_left wstep ops1 x1 in
+    (touched key x1 ops1 -> In w (snd (txn_notify xe))) /\
+    (In w (snd (txn_notify xe)) \/
+     (snd (tree_get (snd (txn_commit xe)) key) = w /\
+      forall next2 ops2, w < next2 -> touched key (tree_txn (snd (txn_commit xe)) next2) ops2 ->
+        In w (snd (txn_notify (fold_left wstep ops2 (tree_txn (snd (txn_commit xe)) next2)))))).
+Proof. exact insert_watch_closes_on_next_change. Qed.
+Print Assumptions C12_insert_watch_closes_on_next_change.
+
+Theorem C12_get_watch_closed_or_kept : forall t next ops k,
+  tree_ids_ok t -> tr_next t <> 0 -> root_tmono (tr_root t) ->
+  snd (tree_get t k) <> 0 -> snd (tree_get t k) < next -> tr_rw t <> snd (tree_get t k) ->
+  let xe := fold_left wstep ops (tree_txn t next) in
+  In (snd (tree_get t k)) (snd (txn_notify xe)) \/ snd (tree_get (snd (txn_commit xe)) k) = snd (tree_get t k).
+Proof. exact get_watch_closed_or_kept. Qed.
+Print Assumptions C12_get_watch_closed_or_kept.
+
+(* Freshness: no channel handed out by the tree produced by Commit (Get, Prefix, RootWatch on the NEW tree; Commit or
+   CommitAndNotify give the same tree) is in the set closed by that transaction's Notify; and the accounting
+   invariant (every nonzero channel occurs at most once in the tree, all below the allocator, recorded channels
+   occur no more, the root channel is not a node channel) holds again for the new tree *)
+Theorem C12_new_tree_channels_open : forall t next ops,
+  CKt t next -> tr_next t <> 0 ->
+  let xe := fold_left wstep ops (tree_txn t next) in
+  let cl := snd (txn_notify xe) in
+  let t' := snd (txn_commit xe) in
+  (forall k, snd (tree_get t' k) <> 0 -> ~ In (snd (tree_get t' k)) cl) /\
+  (forall q, snd (tree_prefix t' q) <> 0 -> ~ In (snd (tree_prefix t' q)) cl) /\
+  (tr_rw t' <> 0 -> ~ In (tr_rw t') cl) /\
+  CKt t' (s_next (t_st (fst (txn_commit xe)))).
+Proof. exact new_tree_channels_open. Qed.
+Print Assumptions C12_new_tree_channels_open.
+
+Theorem C12_accounting_invariant_initial : forall ro next x,
+  (0 < next -> CKt (fst (tree_new ro next)) (next + 1)) /\
+  snd (fst (txn_commit_notify x)) = snd (txn_commit x).
+Proof. exact (fun ro next x => conj (tree_new_CKt ro next) (commit_notify_same_tree x)). Qed.
+Print Assumptions C12_accounting_invariant_initial.
+
+(* Remaining side conditions (not derived from part.New by a single chained theorem): the history theorems take the
+   handle's channel to be older than the transaction's allocator (`< next`), which is the bound part of CKt for that
+   channel; tree_ids_ok / root_tmono / CKt are each shown to be re-established by every commit
+   (C11_cow_published, C12_history_keeps_id_monotonicity, C12_new_tree_channels_open). *)
 
 Example C12_nonvacuous :
   let t := fst (tree_new false 1) in
@@ -183,3 +238,8 @@ Example C12_history_nonvacuous :
   snd (tree_get t1 [1;2]) <> 0 /\ snd (tree_get t1 [1;2]) < 20 /\
   touched [1;2] (tree_txn t1 20) [WDel [1]; WBump; WIns [3] 1; WMod [1;2] 5 mod_fun].
 Proof. vm_compute. repeat split; auto; try discriminate; try lia; intuition discriminate. Qed.
+
+Example C12_fresh_nonvacuous : CKt (fst (tree_new false 1)) 2 /\
+  touched_p [1] (tree_txn (snd (txn_commit (fold_left wstep [WIns [1;2] 3] (tree_txn (fst (tree_new false 1)) 2)))) 9)
+            [WBump; WDel [1;2]].
+Proof. split; [apply tree_new_CKt; lia|vm_compute; intuition discriminate]. Qed.
